@@ -1004,11 +1004,20 @@ class OffsetMap:
             - delta is the difference between the requested offset and stored offset
               Note: delta can be negative, e.g., when computing slot(a[n-1]) which is `(keccak(slot(a)) - 1) + n`
         """
-        (value, offset) = self._map.get(key >> self._offset_bits, (None, None))
-        if value is None:
-            return (None, None)
-        delta = (key & self._mask) - offset
-        return (value, delta)
+        high = key >> self._offset_bits
+        (value, offset) = self._map.get(high, (None, None))
+        if value is not None:
+            return (value, (key & self._mask) - offset)
+
+        # the stored key may lie just across the boundary of an adjacent block
+        for near in (high - 1, high + 1):
+            (value, offset) = self._map.get(near, (None, None))
+            if value is not None:
+                delta = key - ((near << self._offset_bits) | offset)
+                if abs(delta) <= self._mask:
+                    return (value, delta)
+
+        return (None, None)
 
     def __setitem__(self, key: int, value: Any):
         """Store a value with its offset.
